@@ -277,9 +277,22 @@ def ref_compile(core, source: str):
             return wildcard(x.id)
         if isinstance(x, ast.Expr) and isinstance(x.value, ast.Name) and x.value.id in table:
             return wildcard(x.value.id)
-        if isinstance(x, (ast.FunctionDef, ast.AsyncFunctionDef, ast.ClassDef, ast.ImportFrom, ast.Import,
-                          ast.alias, ast.arg)):
-            raise OutOfDomain("definition / import patterns are outside the reference")
+        if isinstance(x, (ast.FunctionDef, ast.AsyncFunctionDef, ast.ClassDef, ast.arg)):
+            raise OutOfDomain("definition patterns are outside the reference")
+        if isinstance(x, ast.ImportFrom):
+            # `from m import a` is the ABSOLUTE import: level is part of the pattern, 0 included
+            module = wildcard(x.module) if x.module in table else x.module
+            if not isinstance(module, (str, type(None), core.Wildcard)):
+                raise OutOfDomain("quantified module name")
+            return ast.ImportFrom(module=module, names=[go(a) for a in x.names], level=x.level)
+        if isinstance(x, ast.alias):
+            name = wildcard(x.name) if x.name in table else x.name
+            asname = wildcard(x.asname) if x.asname in table else x.asname
+            if isinstance(name, (core.ZeroOrOne, core.ZeroOrMany, core.OneOrMany)):
+                # a quantified name stands for whole aliases, with or without `as` (documented in
+                # visit_alias: "we match both in the case where new_asname is None")
+                return type(name)(ast.alias(name=name.template, asname=object if asname is None else asname))
+            return ast.alias(name=name, asname=asname)
         kw = {}
         for k, v in vars(x).items():
             if k in POS_ATTRS or k == "ctx":
